@@ -355,6 +355,18 @@ def extract_model(eng, c, case, m):
             if kind in ('int', 'real', 'bool'):
                 fv[f] = model_value(m, eng.sym_of_kind(kind, 'main.current_tt.%s' % f).z)
         vals['@main.current_tt'] = fv
+    # class-level fields (singleton classes such as SystemClock)
+    for cname, fl in c.fields.items():
+        if cname in c.class_modules and cname not in [v.cls for v in eng.entry_params.values()
+                                                      if isinstance(v, V) and v.k == 'ref']:
+            fv = {}
+            for f, kind in fl.items():
+                if kind in ('int', 'real', 'bool'):
+                    nm = 'cls:%s.%s' % (cname, f)
+                    if any(d.name() == nm for d in m.decls()):
+                        fv[f] = model_value(m, eng.sym_of_kind(kind, nm).z)
+            if fv:
+                vals['@cls:' + cname] = fv
     # global singleton fields
     for gcls, oid in (('Main', 'main'),):
         if gcls in c.fields:
@@ -396,6 +408,7 @@ def _import_target(c):
 
 
 _NATIVE_INIT = {'done': False}
+_MISSING = object()
 
 
 def _build_obj(c, clsname, fields_model):
@@ -478,12 +491,44 @@ def native_check(c, case, model, clause_names):
                     tt._clock = list(objs.values())[0][0]
                 except Exception:
                     pass
+        saved_cls = []
+        cls_pre = {}
+        for key, fv in model.items():
+            if key.startswith('@cls:'):
+                cname = key[5:]
+                cm = importlib.import_module(c.class_modules[cname][:-3].replace('/', '.'))
+                klass = getattr(cm, cname)
+                cls_pre[cname] = {}
+                for f, val in fv.items():
+                    fk = c.fields[cname][f]
+                    saved_cls.append((klass, f, klass.__dict__.get(f, _MISSING)))
+                    type.__setattr__(klass, f, py_value(val, fk))
+                    cls_pre[cname][f] = conc(py_value(val, fk), fk)
         exc = None
         result = None
         try:
             result = func(*args)
         except Exception as e:
             exc = e
+        finally:
+            cls_post = {}
+            for cname in cls_pre:
+                cm = importlib.import_module(c.class_modules[cname][:-3].replace('/', '.'))
+                klass = getattr(cm, cname)
+                cls_post[cname] = {}
+                for f in cls_pre[cname]:
+                    try:
+                        cls_post[cname][f] = conc(getattr(klass, f), c.fields[cname][f])
+                    except Exception:
+                        pass
+            for klass, f, old in reversed(saved_cls):
+                if old is _MISSING:
+                    try:
+                        type.__delattr__(klass, f)
+                    except Exception:
+                        pass
+                else:
+                    type.__setattr__(klass, f, old)
         # concrete context
         eng = Engine(REPO, c, S.REGISTRY, case)
         params = {}
@@ -515,6 +560,9 @@ def native_check(c, case, model, clause_names):
                             post_objs[pname][f] = conc(getattr(o, f), fk)
                         except Exception:
                             pass
+        for cname in cls_pre:
+            pre_objs['cls:' + cname] = cls_pre[cname]
+            post_objs['cls:' + cname] = cls_post.get(cname, {})
         if needs_main:
             pre_objs['main'] = {'current_tt': V('ref', cls='TimeThread', oid='main.current_tt')}
             post_objs['main'] = dict(pre_objs['main'])
